@@ -196,7 +196,7 @@ def each_deconstruct(chk, F, rule, cfg):
             ok = el[0] == 'field' and el[2] == '0' and strip(el[1])[0] == 'as' and strip(el[1])[2] == 'Some' and L.is_iter_next(('discr', strip(strip(el[1])[1])))
             src = strip(strip(el[1])[1]) if ok else ('unk', '')
             names = L.pipeline_calls(src, lambda x: field_path(x) == (('param', 0, 1), ['patterns'])) if ok else None
-            good = names is not None and all(re.search(r'(Iterator>?::next|IntoIterator>?::into_iter|::iter)$', n) for n in names)
+            good = names is not None and all(re.search(r'(Iterator>?::next|IntoIterator( for [^>]*)?>?::into_iter|::iter)$', n) for n in names)
             chk.ob(rule, 'each stub pattern is pushed to the sink in declaration order (element of a forward into_iter)', ok and good, config=cfg, fn=fn, site='sink-elem', what='stub element order: %s' % ','.join((names or ['?'])),
                    found=names or show(el)[:200], expected='for builder in self.patterns.into_iter() { sink.push(F::info(), builder)? }')
         if E.ret_label(p).startswith('Ok') and pushes:
